@@ -10,7 +10,7 @@ COMMON_TRUSTED = [
 PROPS = {
     "C14": {
         "propfile": "PropC14.v",
-        "n": {"quick": 1500, "thorough": 40000},
+        "n": {"quick": 900, "thorough": 30000},
         "corr": "rsl.ParseEntryText / createCommitMessage vs parse / ser",
         "rule": "40% generated entries (adversarial fields: colons, spaces, Unicode spaces, PEM markers, odd hash "
                 "lengths, 64-bit numbers) serialised by createCommitMessage and re-parsed; 40% structured mutations "
